@@ -14,7 +14,7 @@ CLAIMS = {
     "C02": ("durability/ordering protocol + error discipline (MUSTPASS/ORDER/GUARDED/ORIGIN over MIR CFGs); re-evaluates the manifest reader/replay/rollover rules C13.1/5/6",
             "Decides the protocol shape that crash safety needs on every path: ack only after the covering fdatasync (the coalesced token is the maximum offset under every ordering), SST "
             "sync before use, manifest write<flush<sync<rollover, link<manifest<install, log retired last and only on the Ok edge of the ingest, no storage error "
-            "dropped or unwrapped, no truncating open of data files.  Does not enumerate crash states.", "§4 C02"),
+            "dropped or unwrapped, no truncating open of data files.  A batch is reduced to one entry per key before it is stamped, logged and inserted (what is durable can be replayed), and every explicit panic on the write path is an internal invariant listed with its reason.  Does not enumerate crash states.", "§4 C02"),
     "C09": ("checksum-gate dominance, sanity-gate chain, bounded-allocation slice, R-ERR + explicit-panic audit + implicit-bounds audit (array-bounds dataflow on byte buffers) over REACH(read entry points)",
             "Decides that every consumer of file bytes is dominated by the equal edge of its CRC comparison, that the "
             "final-block sanity gates dominate the first block load, that data-sized allocations are bounded, and that no "
@@ -25,13 +25,13 @@ CLAIMS = {
             "Decides: append acknowledges only after the covering fdatasync; frame CRC gate and header size bounds dominate "
             "the hand-out; the discriminants written equal those accepted and FIRST is completed only by SECOND; split "
             "records are written header/payload/pad/header/payload after the size checks; failures poison the builder; no "
-            "error is lost or unwrapped in the reader.  Does not decide boundary arithmetic, the prefix property under "
+            "error is lost or unwrapped in the reader.  An error leaves no bytes of the failed batch in the reader's buffer.  Does not decide boundary arithmetic, the prefix property under "
             "truncation, or exactly-once under interleavings.", "§4 C12"),
     "C13": ("ORDER/GUARDED/ORIGIN over Manifest::{open,_apply,rollover} and ManifestIterator::next; who-may-call on manifest files; HELD for the lock table; implicit-bounds audit of mani",
             "Decides: one append then sync_data before apply returns; rollover links a backup, writes the roll-up to a "
             "temporary and renames it; the reader delivers an edit only at its separator and drops a trailing partial edit; "
             "lines are CRC-gated; the directory lock is taken before reading and owned by the handle; only _apply/rollover "
-            "write manifest files.  Does not decide tolerance of every truncation/crash point or the string alphabet.", "§4 C13"),
+            "write manifest files.  Writer and reader agree on the alphabet of a line (shortest line admitted; non-ASCII text, a trailing CR and the action characters as info keys refused at write time); a refused in-process lock attempt opens no descriptor.  Does not decide tolerance of every truncation/crash point or the string alphabet.", "§4 C13"),
     "C08": ("who-may-call enumeration of every remove/rename/hard_link site with ORIGIN path classification; GUARDED/ORDER on unref, verifier and orphan scan (incl. the numeric order of manifest fragments and who may run the scan); ESCAPE of the VersionRef; MUSTPASS re-read of the base version after a wait",
             "Decides the deletion capability: nothing under sst/, mani/ or a log is ever unlinked by the store, an sst/ file is "
             "moved to trash/ only under dec()==true and strong_count==1, versions are referenced before publication, the "
@@ -53,7 +53,7 @@ CLAIMS = {
             "collector resets its per-key state on every key change; any/all consult every child without short-circuit and the version "
             "counter always retains a key's first untombstoned version; the multi-builder seals every builder it lets go, records every file it "
             "opens and forwards each entry unchanged to the current builder.  "
-            "Does not decide multiset equality of contents or GC policy semantics.", "§4 C05"),
+            "Outputs are cut only between two different keys (or at a full table).  Does not decide multiset equality of contents or GC policy semantics.", "§4 C05"),
     "C06": ("HELD lock-guard dataflow (must/may), ORDER, GUARDED, WRITES and ORIGIN over KeyValueStore::{write,load,range_scan,_memtable_thread}",
             "Decides the critical-section and completion-order skeleton linearizability needs: one critical section assigns queue "
             "position, sequence number, memtable and log; Ok only after append < insert < head-of-list wait < unlink < notify; "
@@ -82,7 +82,7 @@ CLAIMS = {
             "of comparisons), a compaction is expanded only by files contained in its range, an ingest derives the installed "
             "version from a snapshot re-read after its stall wait, and the memtable answers for exactly the requested key at the "
             "requested timestamp with versions ordered newest first; recovery's level propagation re-queues every component "
-            "whose level it raises (worklist relaxation).  Does not decide "
+            "whose level it raises (worklist relaxation).  In a deeper level every file between lower_bound(key) and upper_bound(key) is consulted, and compaction outputs are cut only between two different keys.  Does not decide "
             "compaction input closure, the rest of recovery level assignment, bloom/block search arithmetic.", "§4 C01"),
     "C03": ("ORIGIN chains (pipeline composition), loop-body MUSTPASS (every file wrapped and merged), GUARDED (overlap skip) plus the overlap predicate's decision table over (bound kinds x key order) read from MIR, HELD (snapshot capture); re-evaluates C11.1/4/5/6, C06.3/5, C05.5",
             "Decides pipeline composition: every scan is Bounds(Pruning(Merging(components))) with the captured timestamp and "
@@ -95,11 +95,11 @@ CLAIMS = {
             "and rebuilding the heap and moves children by single steps only (no re-seek), every seek positions every child, pruning filters by timestamp <= snapshot, recognises "
             "tombstones and accepts an entry only after screening it against skip_key (seek and next alike); the bounds cursor "
             "re-checks both bounds after every step in both directions; the concatenating cursor leaves an exhausted child.  "
-            "Does not decide the combinator equivalences for all inputs.", "§4 C11"),
+            "The pruning cursor records every entry it returns (prev as next and seek); the concatenating cursor's binary search never classifies an empty child.  Does not decide the combinator equivalences for all inputs.", "§4 C11"),
     "C07": ("who-frees analysis over Drop impls (GUARDED uniqueness test or pointee ownership), ESCAPE of the VersionRef, ORIGIN pipeline chains, ADT field-type facts; re-evaluates C06.3/5 (snapshot capture and visibility watermark)",
             "Decides the ownership/escape structure a memory-safe snapshot needs: shared memory is freed only by the Arc's pointee or "
             "behind a uniqueness test, iterators hold a clone of the list's Arc, the returned scan cursor owns the VersionRef that "
-            "pins its files, every scan pipeline prunes at the captured timestamp, cursors have no borrowed fields.  Does not "
+            "pins its files, every scan pipeline prunes at the captured timestamp, cursors have no borrowed fields.  A `strong_count == 2` last-handle test is made under the file manager's lock.  Does not "
             "decide which schedules would free memory under a live cursor.", "§4 C07"),
     "C17": ("atomic-ordering operand table with identity-only slice for Relaxed loads, ORDER with cycles (initialise before publish), value slice of the level index (bottom-up linking), who-may-call for deref/free",
             "Decides publication order and confinement: Release stores / AcqRel CAS / Acquire loads on every pointer that can be "
@@ -120,7 +120,7 @@ CLAIMS = {
             "explicit panic or dropped error is reachable from a decoder, and every index / slice expression on the decode path "
             "is in range by a dominating comparison with the length of the same buffer (7 excepted sites with reasons); every hand-written "
             "Packable impl sizes through pack_sz each concrete component it writes through pack (a Tag::pack_sz that sizes the tag itself is "
-            "tabulated over all valid field numbers against the varint length).  Does "
+            "tabulated over all valid field numbers against the varint length).  Leaf field packers always write their field (presence is decided only by Option / Vec / Box), every scalar field type announces the wire type of what it writes, and every field loop of a derived decoder can pass over an unknown field.  Does "
             "not decide round-trip equality or integer-overflow panics.", "§4 C15, §9.1"),
     "C16": ("TABLE reading of to/from_discriminant (inverse bijection < 16), const evaluation of tuple_key2 tag ranges, exhaustive evaluation over u8 of the descending byte map read from MIR, exact piecewise-translation tabulation of the sign-offset mapping (order isomorphism, decode inverts encode), explicit-panic audit + implicit-bounds audit with an inductive offset <= len type invariant over REACH(decoders)",
             "Claims only: the decoders of both formats reach no explicit panic construct and index their buffers in range (parser "
@@ -138,7 +138,7 @@ CLAIMS = {
             "only on paths whose comparisons imply it stays below the next block's first key (path-wise guard proof) and otherwise is "
             "the left key with its own timestamp; prefix compression is produced and consumed consistently (restart stores the key whole and records "
             "the offset of the entry it precedes, the shared length comes from a scan bounded by both keys comparing the same position, "
-            "writer and reader both truncate to `shared` then append the fragment of the same entry).  Does not decide enumeration/seek/lookup correctness of the cursors.", "§4 C10"),
+            "writer and reader both truncate to `shared` then append the fragment of the same entry).  SstCursor::seek chooses the block by the index search; a same-block shortcut must exclude the previous block's dividing key.  Does not decide enumeration/seek/lookup correctness of the cursors.", "§4 C10"),
     "C19": ("writer/reader table agreement of the serialised index: TABLE reading of the derived stub decoders' (number, wire type) switch trees vs. the field numbers and append kinds of the hand-written Builder writers (ORIGIN of builder receivers through helpers and sub-builder scopes), Tag constants of hand-written readers",
             "Decides ONE clause of C19, `serialising and re-parsing the index changes nothing`, and of that only its structural "
             "necessary condition: every field-by-field index writer emits exactly the (field number, wire type) set its reader's "
